@@ -139,6 +139,9 @@ def c19(tier, seed):
         J(ENC, "VerifK19Base64DecodeAny", len=4 if q else 6, timeout_ms=60000),
         # hostile authorization models
         J(TS, "VerifK19HostileModel", nest=6),
+        # condition contexts: request / tuple context absent, present without a Fields map (`"context": {}`), empty or
+        # carrying values of the right / wrong type - the real merge + cast + evaluation must not panic (K25 harness)
+        J("internal/condition/eval", "VerifK25TupleCondition", len=2),
     ]
     if not q:
         jobs.append(J(TUP, "VerifK19TupleParse", len=10, ascii=1, timeout_ms=120000))
@@ -165,7 +168,7 @@ SPEC = {
     },
     "C19": {
         "jobs": c19,
-        "level_text": "panic-freedom by bounded symbolic execution (a reachable runtime panic is a violation by itself): every exported function of pkg/tuple on arbitrary byte strings; keys.PbValue.WriteTo / keys.Tuple.WriteTo on structpb value trees of depth <= 3 with every kind at every node incl. absent values, values without kind, nil lists, nil structs, nil list elements (shape forked, payloads symbolic); graph.runHandler and concurrency.RecoverFromPanic turn explicit panics and every kind of runtime panic of a handler into an error (real conc/panics.Try, panics unwind for real in the engine); all validators of internal/validation on tuples whose fields are arbitrary strings simultaneously, ValidateStruct on nested hostile contexts against a reference; continuation-token deserialisers (serializer, TokenEncoder + GCM framing around an AEAD with arbitrary verdict, the real base64 URL decoder) on arbitrary strings; typesystem.NewAndValidate / New on 34 hostile authorization models built from literals (nil rewrites and children, kind-less rewrites, empty names, dangling and self references, cycles, nesting depth 6/12, duplicate types, nil metadata / restrictions / type definitions / conditions)",
+        "level_text": "panic-freedom by bounded symbolic execution (a reachable runtime panic is a violation by itself): every exported function of pkg/tuple on arbitrary byte strings; keys.PbValue.WriteTo / keys.Tuple.WriteTo on structpb value trees of depth <= 3 with every kind at every node incl. absent values, values without kind, nil lists, nil structs, nil list elements (shape forked, payloads symbolic); graph.runHandler and concurrency.RecoverFromPanic turn explicit panics and every kind of runtime panic of a handler into an error (real conc/panics.Try, panics unwind for real in the engine); all validators of internal/validation on tuples whose fields are arbitrary strings simultaneously, ValidateStruct on nested hostile contexts against a reference; continuation-token deserialisers (serializer, TokenEncoder + GCM framing around an AEAD with arbitrary verdict, the real base64 URL decoder) on arbitrary strings; typesystem.NewAndValidate / New on 36 hostile authorization models built from literals (nil rewrites and children, kind-less rewrites, empty names, dangling and self references, cycles, nesting depth 6/12, duplicate types, nil metadata / restrictions / type definitions / conditions, a nil condition under the empty key; the stand-in for CEL compilation reads the embedded condition like the real compile()); the condition evaluation path (eval.EvaluateTupleCondition -> EvaluableCondition.Evaluate: context merge, cast, missing parameters) on request / tuple contexts that are absent, present without a Fields map, empty, or carry values of the right or the wrong type (K25 harness)",
         "level_note": "bounds: strings <= 4..8 arbitrary bytes / <= 6..10 ASCII bytes per harness (listed in evidence); value trees depth 3, <= 1 (quick) / 2 children at the root, 1 below; validators: fields <= 1..2 bytes each at once; stack capture (runtime.Stack/Callers, debug.Stack) modelled as empty; the ErrPanic link of runHandler's two-%w error is checked natively only (ENGINE_ISSUES.md); whole-request protobuf decoding, memory growth and hangs are outside",
         "assumptions": ["stack capture returns no frames", "CEL compilation stubbed under the engine", "floats in value trees come from a concrete set {0, 1, -2.5}"],
         "outside": ["whole-request fuzzing through protobuf decoding and request-level field validation", "memory growth, hangs", "SQL backends", "CEL evaluation"],
